@@ -675,7 +675,7 @@ func init() {
 				cur = eo.cause.(IfaceVal)
 				continue
 			}
-			fn := p.eng.prog.LookupMethod(cur.t, nil, "Cause")
+			fn := p.eng.lookupMethod(cur.t, "Cause")
 			if fn == nil {
 				return cur
 			}
@@ -721,7 +721,7 @@ func init() {
 	sortIface := func(p *Path, a []Value, site *ssa.CallCommon) Value {
 		iv := a[0].(IfaceVal)
 		call := func(name string, args ...Value) Value {
-			fn := p.eng.prog.LookupMethod(iv.t, nil, name)
+			fn := p.eng.lookupMethod(iv.t, name)
 			return p.callFunc(fn, append([]Value{iv.v}, args...), nil, site)
 		}
 		n := p.concreteInt(call("Len"), "sort Len")
@@ -960,11 +960,11 @@ func (p *Path) fmtArg(v Value, verb byte) (*Term, bool) {
 	case *Term:
 		// named types with String()/Error() methods are formatted through them by fmt
 		if verb != 'd' && verb != 't' {
-			if fn := p.eng.prog.LookupMethod(iv.t, nil, "Error"); fn != nil {
+			if fn := p.eng.lookupMethod(iv.t, "Error"); fn != nil {
 				r := p.callFunc(fn, []Value{iv.v}, nil, nil)
 				return termOf(r), true
 			}
-			if fn := p.eng.prog.LookupMethod(iv.t, nil, "String"); fn != nil && fn.Signature.Params().Len() == 0 {
+			if fn := p.eng.lookupMethod(iv.t, "String"); fn != nil && fn.Signature.Params().Len() == 0 {
 				r := p.callFunc(fn, []Value{iv.v}, nil, nil)
 				return termOf(r), true
 			}
@@ -989,7 +989,7 @@ func (p *Path) fmtArg(v Value, verb byte) (*Term, bool) {
 		if x.c == nil {
 			return mkStr("<nil>"), true
 		}
-		if fn := p.eng.prog.LookupMethod(iv.t, nil, "Error"); fn != nil {
+		if fn := p.eng.lookupMethod(iv.t, "Error"); fn != nil {
 			return termOf(p.callFunc(fn, []Value{iv.v}, nil, nil)), true
 		}
 	}
@@ -1131,7 +1131,7 @@ func (p *Path) errText(iv IfaceVal) *Term {
 	if eo, ok := iv.v.(*ErrObj); ok {
 		return p.errObjMethod(eo, "Error").(*Term)
 	}
-	fn := p.eng.prog.LookupMethod(iv.t, nil, "Error")
+	fn := p.eng.lookupMethod(iv.t, "Error")
 	if fn == nil {
 		return p.fresh("opaque_err", SStr)
 	}
@@ -1162,7 +1162,7 @@ func (p *Path) unwrapErr(v Value, site *ssa.CallCommon) Value {
 		}
 		return eo.cause
 	}
-	fn := p.eng.prog.LookupMethod(iv.t, nil, "Unwrap")
+	fn := p.eng.lookupMethod(iv.t, "Unwrap")
 	if fn == nil || fn.Signature.Results().Len() != 1 {
 		return IfaceVal{}
 	}
@@ -1197,7 +1197,7 @@ func (p *Path) errorsIs(e, target Value, site *ssa.CallCommon) Value {
 			}
 		}
 		if _, isE := cur.v.(*ErrObj); !isE {
-			if fn := p.eng.prog.LookupMethod(cur.t, nil, "Is"); fn != nil && fn.Signature.Params().Len() == 1 {
+			if fn := p.eng.lookupMethod(cur.t, "Is"); fn != nil && fn.Signature.Params().Len() == 1 {
 				if p.branch(termOf(p.callFunc(fn, []Value{cur.v, tg}, nil, site))) {
 					return tTrue
 				}
@@ -1230,7 +1230,7 @@ func (p *Path) errorsAs(e, target Value, site *ssa.CallCommon) Value {
 			return tTrue
 		}
 		if _, isE := cur.v.(*ErrObj); !isE {
-			if fn := p.eng.prog.LookupMethod(cur.t, nil, "As"); fn != nil && fn.Signature.Params().Len() == 1 {
+			if fn := p.eng.lookupMethod(cur.t, "As"); fn != nil && fn.Signature.Params().Len() == 1 {
 				if p.branch(termOf(p.callFunc(fn, []Value{cur.v, tiv}, nil, site))) {
 					return tTrue
 				}
